@@ -279,11 +279,11 @@ Qed.
    ticks and the wrapping absolute expiry from which bucket_of chooses level and slot, and
    the guard / start value of the cascade loop.  If those statements change in the source,
    these obligations are re-checked. *)
-From FV Require Import Generated.Consts Generated.Wheel C05.Source.
+From FV Require Import Generated.Consts Generated.Wheel Lib.GoSem C05.Source.
 
 Theorem c05_src_add_node : forall cur tt n,
   0 <= cur < 2 ^ 32 -> - 2 ^ 62 < tt < 2 ^ 62 -> - 2 ^ 62 < ndl n < 2 ^ 62 ->
-  go_HHWheelTimer_addNode_prefix tt cur (ndl n) = Some (model_ticks tt n, model_expires cur tt n).
+  go_HHWheelTimer_addNode_prefix tt cur (ndl n) = Reached (model_ticks tt n, model_expires cur tt n).
 Proof. exact src_add_node. Qed.
 Print Assumptions c05_src_add_node.
 
@@ -303,8 +303,8 @@ Print Assumptions c05_src_bucket_of.
 Theorem c05_src_shift_wheels : forall w, 0 <= wcur w < 2 ^ 32 ->
   shift_wheels w =
   match go_HHWheelTimer_shiftWheels_prefix (wcur w) with
-  | None => w
-  | Some (ct, ticks) => shift_loop (Z.to_nat sched_WHEEL_LEVEL) 0 ticks w
+  | Returned _ _ => w
+  | Reached (ct, ticks) => shift_loop (Z.to_nat sched_WHEEL_LEVEL) 0 ticks w
   end.
 Proof. exact src_shift_wheels. Qed.
 Print Assumptions c05_src_shift_wheels.
